@@ -11,6 +11,11 @@ def evalGb (op : String) (args : List Sexp) : Option String :=
       let refs ← infos.mapM fun i => do pure (⟨0, ← decBytes? i⟩ : Ref)
       let rs := sliceRefs (← decBytes? pref) (← decInt? a) (← decInt? b) refs
       pure (encList (rs.map fun r => s!"({r.number} {encBytes r.info})"))
+  | "gb.sliceref2", pref :: a :: b :: c :: d :: infos => do
+      let refs ← infos.mapM fun i => do pure (⟨0, ← decBytes? i⟩ : Ref)
+      let p ← decBytes? pref
+      let rs := sliceRefs p (← decInt? c) (← decInt? d) (sliceRefs p (← decInt? a) (← decInt? b) refs)
+      pure (encList (rs.map fun r => s!"({r.number} {encBytes r.info})"))
   | "gb.refinfo", [pref, info] => do
       match parseRefInfo (← decBytes? pref) (← decBytes? info) with
       | none => pure "ERR"
